@@ -167,7 +167,90 @@ class HLightEq(HLight):
         return "HLightEq(%r)" % (self.name,)
 
 
+class HNodeNo(HNode):
+    """A node class whose instances are always falsy (e.g. 'no payload yet')."""
+
+    def __bool__(self):
+        return False
+
+
+class HLightNo(HLight):
+    __slots__ = ()
+
+    def __bool__(self):
+        return False
+
+    def __repr__(self):
+        return "HLightNo(%r)" % (self.name,)
+
+
+class HMixEq(HMix):
+    """NodeMixin-based twin of HLightEq (C18 with value-equality classes)."""
+
+    def __eq__(self, other):
+        return isinstance(other, HMixEq) and _eqkey(self) == _eqkey(other)
+
+    def __ne__(self, other):
+        return not self.__eq__(other)
+
+    def __hash__(self):
+        return _eqkey(self)
+
+    def __repr__(self):
+        return "HMixEq(%r)" % (self.name,)
+
+
+class _Bag(object):
+    """What users write: a node that is also a container of its children -
+    len(), iteration, membership and indexing go to the children, and a leaf is
+    falsy.  The library must still treat every such node as a node."""
+
+    __slots__ = ()
+
+    def __len__(self):
+        return len(self.children)
+
+    def __iter__(self):
+        return iter(self.children)
+
+    def __contains__(self, item):
+        return any(item is c for c in self.children)
+
+    def __getitem__(self, key):
+        return self.children[key]
+
+
+class HNodeBag(_Bag, HNode):
+    pass
+
+
+class HLightBag(_Bag, HLight):
+    __slots__ = ()
+
+    def __repr__(self):
+        return "HLightBag(%r)" % (self.name,)
+
+
+class HLightSub(HLight):
+    """A second level of __slots__ (C19: every level's slots must survive a copy)."""
+
+    __slots__ = ("extra",)
+
+    def __init__(self, name, parent=None, children=None, **kwargs):
+        self.extra = "x-" + str(name)
+        HLight.__init__(self, name, parent=parent, children=children, **kwargs)
+
+    def __repr__(self):
+        return "HLightSub(%r)" % (self.name,)
+
+
 CLASSES = {
+    "HNodeNo": HNodeNo,
+    "HLightNo": HLightNo,
+    "HMixEq": HMixEq,
+    "HNodeBag": HNodeBag,
+    "HLightBag": HLightBag,
+    "HLightSub": HLightSub,
     "HNodeEq": HNodeEq,
     "HLightEq": HLightEq,
     "HNode": HNode,
@@ -179,6 +262,12 @@ CLASSES = {
     "HLightDict": HLightDict,
 }
 FAMILY = {
+    "HNodeNo": "node",
+    "HLightNo": "light",
+    "HMixEq": "node",
+    "HNodeBag": "node",
+    "HLightBag": "light",
+    "HLightSub": "light",
     "HNodeEq": "node",
     "HLightEq": "light",
     "HNode": "node",
@@ -276,6 +365,7 @@ class World(object):
         self.cls = []
         self._idx = {}
         self.observe_hooks = observe_hooks
+        self.hook_reads = ()
         self.plan = FaultPlan(None)
         self.hooklog = []
         self.fired = []
@@ -334,6 +424,13 @@ class World(object):
         else:
             ai = tuple(self.index(x) for x in arg)
         obs = self._observe(node, kind, arg) if self.observe_hooks else None
+        if self.hook_reads:
+            # a hook that looks at the tree (logging, validation, capacity checks ...)
+            others = (arg,) if kind in PARENT_HOOKS else tuple(arg)[:2]
+            for attr in self.hook_reads:
+                getattr(node, attr)
+                for o in others:
+                    getattr(o, attr)
         self.hooklog.append((kind, ni, ai, obs))
         exc, how = self.plan.decide(k, kind, ni)
         if exc is not None:
